@@ -98,6 +98,25 @@ def line_of(fn, block):
     return None
 
 
+# standard-library functions documented to panic on some arguments (besides unwrap / expect / indexing, handled above). A call to one
+# of them is a panic site that must be discharged; other standard-library callees are assumed total.
+MAY_PANIC = re.compile(
+    r"^core::slice::<impl \[T\]>::(split_at|split_at_mut|copy_from_slice|clone_from_slice|swap|chunks|chunks_exact|chunks_mut|windows|rotate_left|rotate_right|copy_within|split_first_chunk)$"
+    r"|^core::str::<impl str>::(split_at|split_at_mut)$"
+    r"|^alloc::vec::Vec::<T, A>::(remove|insert|swap_remove|drain|split_off|extend_from_within)$"
+    r"|^alloc::string::String::(remove|insert|insert_str|drain|split_off|replace_range)$"
+    r"|^alloc::collections::vec_deque::VecDeque::<T, A>::(insert|swap|drain|split_off)$"
+    r"|^core::cell::RefCell::<T>::(borrow|borrow_mut)$"
+    r"|^core::result::Result::<T, E>::(unwrap_err|expect_err)$"
+    r"|^core::option::Option::<T>::(unwrap_unchecked)$"
+    r"|^<core::time::Duration as core::ops::arith::(Add|Sub|Mul<u32>|Div<u32>|AddAssign|SubAssign)>::\w+$"
+    r"|^<std::time::(SystemTime|Instant) as core::ops::arith::(Add<core::time::Duration>|Sub<core::time::Duration>|Sub|AddAssign<core::time::Duration>|SubAssign<core::time::Duration>)>::\w+$"
+    r"|^core::num::<impl [ui]\w+>::(div_euclid|rem_euclid|ilog|ilog2|ilog10|next_power_of_two|abs_diff_unused)$"
+    r"|^core::char::methods::<impl char>::(from_digit|to_digit)$"
+    r"|^core::cmp::Ord::clamp$|^core::(f32|f64)::<impl f(32|64)>::clamp$"
+    r"|^core::iter::traits::iterator::Iterator::step_by$")
+
+
 def panic_sites(prog, fn, include_calls=True):
     """(kind, detail, block, line, key-detail) panic sites of one body"""
     out = []
@@ -128,6 +147,8 @@ def panic_sites(prog, fn, include_calls=True):
                 out.append(("call", "slice-index", i, sp))
             elif cp in ("core::panicking::panic", "core::panicking::panic_fmt", "core::panicking::assert_failed", "std::rt::begin_panic", "core::panicking::panic_explicit"):
                 out.append(("call", "panic", i, sp))
+            elif MAY_PANIC.search(cp):
+                out.append(("call", "may-panic:" + cp.rsplit("::", 1)[1], i, sp))
     return out
 
 
